@@ -22,8 +22,14 @@ ROOT = os.path.dirname(os.path.dirname(os.path.abspath(__file__)))
 REPO = os.environ.get("VERIF_REPO", "/repo")
 SPECS = os.path.join(ROOT, "specs")
 HARNESS = os.path.join(ROOT, "harness")
-BIN = os.path.join(ROOT, ".bin")
 WORK = os.path.join(ROOT, ".work")
+import hashlib  # noqa: E402
+_RK = "" if REPO == "/repo" else "-" + hashlib.sha1(REPO.encode()).hexdigest()[:8]
+BIN = os.path.join(ROOT, ".bin" + _RK)
+# harness go.mod lives outside the source tree and is selected with -modfile, so that several
+# repository trees (VERIF_REPO=<scratch worktree>, used for mutation testing) can be built side by side
+MODDIR = os.path.join(WORK, "mod" + _RK)
+MODFILE = os.path.join(MODDIR, "go.mod")
 TLA_CP = "/opt/veriftools/tla/tla2tools.jar:/opt/veriftools/tla/CommunityModules-deps.jar"
 
 
@@ -67,11 +73,15 @@ def ensure_gomod():
     out.append("replace github.com/projectcalico/calico => %s" % REPO)
     out.append("")
     text = "\n".join(out)
-    gm = os.path.join(HARNESS, "go.mod")
+    os.makedirs(MODDIR, exist_ok=True)
+    gm = MODFILE
     if not os.path.exists(gm) or open(gm).read() != text:
         open(gm, "w").write(text)
+    stub = os.path.join(HARNESS, "go.mod")   # the go command needs a go.mod to find the module root
+    if not os.path.exists(stub):
+        open(stub, "w").write("module verifharness\n\ngo 1.26.5\n")
     gs_src = open(os.path.join(REPO, "go.sum")).read()
-    gs = os.path.join(HARNESS, "go.sum")
+    gs = os.path.join(MODDIR, "go.sum")
     if not os.path.exists(gs) or open(gs).read() != gs_src:
         open(gs, "w").write(gs_src)
 
@@ -95,7 +105,7 @@ def go_build(name, tags="verif", cgo=False, race=False):
     ensure_gomod()
     os.makedirs(BIN, exist_ok=True)
     out = os.path.join(BIN, name)
-    cmd = ["go", "build", "-tags", tags, "-o", out]
+    cmd = ["go", "build", "-modfile", MODFILE, "-tags", tags, "-o", out]
     if race:
         cmd.append("-race")
     cmd.append("./cmd/" + name)
